@@ -1370,6 +1370,13 @@ def step (w : World) (line : String) : World × String :=
     | _, _ => (w, "bad-op")
   -- specification: an encoding never exceeds its limit
   | ["hfits", _, _] => (w, "fits 1")
+  -- specification: encoding under a limit succeeds whenever the empty list (one byte) fits — the
+  -- newest heads that fit are kept, the others dropped; it is never refused because heads were many
+  | ["hencodes", lim, _] =>
+    (w, match (if lim = "-" then some none else (parseNat? lim).map some) with
+        | some none => "ok"
+        | some (some l) => if l ≥ 1 then "ok" else "err"
+        | none => "bad-op")
   -- specification: what is kept is the longest newest-first prefix whose encoding fits
   | ["hkept", lim, heads] =>
     match (if lim = "-" then some none else (parseNat? lim).map some), parseHeads? heads with
